@@ -371,10 +371,11 @@ def run(tier: str, only=None) -> int:
                     continue
                 P = {"transport": tr, "backend": "thread", "channels": chans, "size": size, "sendall_splits": True}
                 rep.sample({"sub": name, "params": {k: v for k, v in P.items() if k != "channels"}})
+                big = pname in ("up4", "both")
                 if tr == "socket":
-                    bounds = {"ps": 1, "env": 1, "free": 0} if tier == "quick" else {"ps": 2, "env": 2, "free": 1}
+                    bounds = {"ps": 1, "env": 1, "free": 0} if tier == "quick" else ({"ps": 1, "env": 1, "free": 1} if big else {"ps": 2, "env": 1, "free": 1})
                 else:
-                    bounds = {"ps": 2, "free": 0} if tier == "quick" else {"ps": 2, "free": 1}
+                    bounds = {"ps": 2, "free": 0} if tier == "quick" or big else {"ps": 2, "free": 1}
                 harness.run_exploration(rep, PID, name, ChanProgC08, P, bounds, max_execs=cap)
     # a large data frame against header-only frames of other channels
     for tr in ("socket", "popen", "via"):
